@@ -51,7 +51,7 @@ def run(ctx):
         r.check('max-guard', g['max'], site, built=g['guards'], expected='id > channel_max rejected before make_entry')
         HAS = 'std::collections::HashMap::contains_key(self.slots, channel_id.Some.0)'
         r.check('vacant-only', 'unless(%s)' % HAS in g['guards'], site, built=g['guards'], expected='make_entry only where the id is not in the table (Vacant arm of slots.entry(id) / !contains_key(id))')
-        r.eq('guard-error', g['error_on_reject'], [UNAVAIL], site)
+        r.check('guard-error', g['error_on_reject'] and set(g['error_on_reject']) == {UNAVAIL}, site, built=g['error_on_reject'], expected=[UNAVAIL])
         rows = P.table(ctx, CSL + 'insert', ['self', 'channel_id', 'make_entry'])
         occ = [x for x in rows if x.conds and x.conds[-1] == (HAS, True)]
         r.check('occupied-error', len(occ) == 1 and occ[0].value_str() == UNAVAIL, site, built=[x.row() for x in occ])
